@@ -9,6 +9,7 @@ import Sgz.Model.Derived
 import Sgz.Model.Header
 import Sgz.Model.Container
 import Sgz.Model.HeaderReads
+import Sgz.Model.Version
 /-!
 # Tie/Source — the model's arithmetic is the arithmetic of the source as it is now
 
@@ -359,5 +360,25 @@ theorem footer_padding (len : Nat) :
     ∧ (len : Int) + Gen.footer_pad_numpy len = Container.footerArrayBytes len := by
   unfold Gen.footer_pad_segy Gen.footer_pad_numpy Container.footerArrayBytes
   constructor <;> omega
+
+/-! ### version.py and the version gates -/
+
+theorem version_decode (n : Nat) :
+    Ver.decode n = { major := Gen.ver_major n, minor := Gen.ver_minor n (Gen.ver_major n),
+                     patch := Gen.ver_patch n (Gen.ver_major n) (Gen.ver_minor n (Gen.ver_major n)),
+                     dev := n % 2 == 0 }
+    ∧ (Gen.ver_dev n ↔ (n % 2 == 0) = true) := by
+  unfold Ver.decode Gen.ver_major Gen.ver_minor Gen.ver_patch Gen.ver_dev
+  exact ⟨rfl, by simp⟩
+
+theorem version_encode (v : Ver) :
+    Ver.encode v = Gen.ver_encoding v.major v.minor v.patch - (if v.dev then 1 else 0) := by
+  unfold Ver.encode Gen.ver_encoding; rfl
+
+/-- the gates compare with the releases the model names -/
+theorem version_gates :
+    Ver.parse Gen.gate_reader_footer = some Ver.v_0_2_1 ∧ Ver.parse Gen.gate_reader_interval = some Ver.v_0_1_6
+    ∧ Ver.parse Gen.gate_cropper_footer = some Ver.v_0_2_1 := by
+  refine ⟨by decide, by decide, by decide⟩
 
 end Sgz.Tie
